@@ -56,3 +56,32 @@ PROPS['C15'] = {
     'assumptions': ['reference semantics follow the battery docstrings where they deliberately differ from the builtin (ReplDict.pop default None, '
                     'queue get(default))', 'bounded queues are exercised with maxsize >= 1'],
 }
+
+PROPS['C11'] = {
+    'engine': 'rv.argsweep', 'level': 'exploration',
+    'rule': ('one case = a 2-3 node E1 cluster on a healthy network (memory or file journal, batched or unbatched appends) and a slice of '
+             'commands: the dense cases enumerate every argument size in [k*B-64, k*B+64] for k = 1..4 and every batch size B in '
+             '{1, 7, 64, 1000, 4096, 65536} (16 sizes per case, all sizes in both tiers); the other cases draw random sizes up to 8*B and random '
+             'shapes (nested tuples/lists/dicts/bytes/str/None, positional and keyword). Every replica must execute each command exactly once '
+             'with arguments equal to the submitted ones, the callback must report SUCCESS, no exception may escape any step, replicas must '
+             'converge. distinct non-trivial = distinct (mode, batch size, append mode, journal, slice) in which commands were applied.'),
+    'wall_cap': {'quick': 100, 'thorough': 1200},
+    'min_nontrivial': {'quick': 40, 'thorough': 100},
+    'assumptions': ['healthy network in the fair regime (every message delivered, every node ticking)',
+                    'argument size = length of one bytes/str payload; pickling overhead (< 64 bytes) is covered by the +-64 window'],
+}
+
+PROPS['C13'] = {
+    'engine': 'rv.framefuzz', 'level': 'exploration',
+    'rule': ('one case = 1-13 messages (sizes 0 .. 4x the socket buffer, pickled protocol dicts, bytes, strings) sent through a pair of real '
+             'TcpConnection objects on simulated sockets with buffers of 1 .. 8192 bytes while a seeded adversary decides, per action, how many '
+             'bytes cross (1 .. all), caps send() (short writes), injects EAGAIN and caps recv() (split reads). Every third case rewrites one '
+             'frame in flight: negative length (plain and wrapped around a valid payload), too small / too large length, bit flips in the '
+             'payload, garbage. The prefix oracle runs after every action. distinct non-trivial = distinct (mode, corruption kind, buffer '
+             'size, message count, short writes seen, split reads seen).'),
+    'wall_cap': {'quick': 80, 'thorough': 1200},
+    'min_nontrivial': {'quick': 40, 'thorough': 100},
+    'assumptions': ['a too large positive length field is not detectably invalid: only "no misdelivery, no exception" is demanded there',
+                    'a bit flip that still decompresses and unpickles is delivered as the changed value (not detectable by the framing layer)',
+                    'sockets are simulated; thorough adds nothing kernel specific'],
+}
